@@ -333,6 +333,8 @@ pub struct Terminal {
     pub disk: Disk,
     pub aborted: bool,
     pub any_failed: bool,
+    /// the driver reported a failure or aborted (as opposed to the engine declaring one itself)
+    pub driver_fault: bool,
     pub offered: Vec<bool>,
 }
 
@@ -662,6 +664,7 @@ pub fn terminal_checks(sim: &mut Sim, snap: &VerifSnapshot, m: Mon, ex: &mut Exe
         disk: sim.disk.clone(),
         aborted: sim.aborted,
         any_failed,
+        driver_fault: sim.aborted || sim.res.iter().any(|r| matches!(r, Res::Failed | Res::AbortedRunning)),
         offered: sim.offered.clone(),
     })
 }
